@@ -10,3 +10,75 @@ func (t *ART) VerifPosition() *arena.MemDBCheckpoint {
 	cp := t.checkpoint()
 	return &cp
 }
+
+// VerifNode drives one inner node of the radix tree directly (addChild / findChild / replaceChild with growth
+// 4 -> 16 -> 48 -> 256) for the node-container model (Model/ArtNode.lean). Children are leaves whose 2-byte key is an id.
+type VerifNode struct {
+	t  *ART
+	an artNode
+}
+
+func VerifNewNode() *VerifNode {
+	t := New()
+	an, _ := t.newNode4()
+	return &VerifNode{t: t, an: an}
+}
+
+func (v *VerifNode) leaf(id uint16) artNode {
+	n, _ := v.t.newLeaf([]byte{byte(id >> 8), byte(id)})
+	return n
+}
+
+func (v *VerifNode) idOf(n artNode) int {
+	k := n.asLeaf(&v.t.allocator).GetKey()
+	return int(k[0])<<8 | int(k[1])
+}
+
+func (v *VerifNode) Add(c byte, id uint16) { v.an.addChild(&v.t.allocator, c, false, v.leaf(id)) }
+
+func (v *VerifNode) Find(c byte) (int, bool) {
+	_, ch := v.an.findChild(&v.t.allocator, c, false)
+	if ch.addr.IsNull() {
+		return 0, false
+	}
+	return v.idOf(ch), true
+}
+
+func (v *VerifNode) Replace(c byte, id uint16) { v.an.replaceChild(&v.t.allocator, c, v.leaf(id)) }
+
+func (v *VerifNode) Kind() int {
+	switch v.an.kind {
+	case typeNode4:
+		return 4
+	case typeNode16:
+		return 16
+	case typeNode48:
+		return 48
+	case typeNode256:
+		return 256
+	}
+	return 0
+}
+
+// Num is nodeBase.nodeNum (a uint8: it wraps for a node256 with 256 children).
+func (v *VerifNode) Num() int { return int(v.an.asNode(&v.t.allocator).nodeNum) }
+
+// Children enumerates the children with the iterator's own code (baseIter.next / prev from the node as root).
+func (v *VerifNode) Children(reverse bool) []int {
+	it := &baseIter{allocator: &v.t.allocator}
+	it.seekToFirst(v.an, reverse)
+	var out []int
+	for i := 0; i < 300; i++ {
+		var n artNode
+		if reverse {
+			n = it.prev()
+		} else {
+			n = it.next()
+		}
+		if n.addr.IsNull() {
+			break
+		}
+		out = append(out, v.idOf(n))
+	}
+	return out
+}
